@@ -618,4 +618,22 @@ def _parse_phase_rest(
          """from copy import deepcopy
 """, """from copy import copy, deepcopy
 """)]),
+    dict(id="visit4b-graft-inherits-location", kind=B, props=["C11", "C15"], expect="VISIT-4b", edits=[("ast_utils.py",
+         """            self.replaced = True
+            return self.replacement_node
+        else:""", """            self.replaced = True
+            self.replacement_node._location = node._location
+            return self.replacement_node
+        else:""")]),
+    dict(id="escape-without-inverse", kind=B, props=["C04"], expect="TABLE-argparse", edits=[("ast_utils.py",
+         """                            value=set_value((fill if word_wrap else identity)(doc)),""",
+         """                            value=set_value((fill if word_wrap else identity)(doc.replace("%", "%%"))),""")]),
+    dict(id="escape-with-inverse", kind=N, props=["C04"], expect="silent", edits=[("ast_utils.py",
+         """                            value=set_value((fill if word_wrap else identity)(doc)),""",
+         """                            value=set_value((fill if word_wrap else identity)(doc.replace("%", "%%"))),"""), ("emitter_utils.py",
+         """                get_value(key_word.value)
+                for key_word in expr.value.keywords
+                if key_word.arg == "help" and key_word.value""", """                get_value(key_word.value).replace("%%", "%")
+                for key_word in expr.value.keywords
+                if key_word.arg == "help" and key_word.value""")]),
 ]
